@@ -156,7 +156,7 @@ impl Ctx {
         F: Fn(u64) -> Option<CaseRec> + Sync,
     {
         let t0 = std::time::Instant::now();
-        let chunk = if total > 2_000_000 { 50_000u64 } else { (total / (4 * self.threads as u64)).clamp(200, 20_000) };
+        let chunk = if total > 2_000_000 { 50_000u64 } else { (total / (4 * self.threads as u64)).clamp(1, 20_000) };
         let nchunks = (total + chunk - 1) / chunk;
         let next = Mutex::new(0u64);
         std::thread::scope(|s| {
